@@ -652,7 +652,8 @@ class ATAdaptiveSupport(BaseAdaptiveSupport):
 
         self._initial_proposal_params.update(
                 {'_unit_cov': self._unit_cov.copy(),
-                 '_log_lambda': self._log_lambda,
+                 '_log_lambda': numpy.copy(self._log_lambda)
+                 if self._iscomponentwise else self._log_lambda,
                  '_mean': self._mean.copy()})
 
         # set target rate (componentwise target rate scales differently)
